@@ -350,34 +350,14 @@ theorem option_decision (name : String) (user dflt : Option OVal) :
       optionSpec name user dflt := by
   cases user <;> cases dflt <;> rfl
 
-/-- **option_decision_refuted** — with the truthiness tests of the current code
-    (`user_options.get(name)` / `option.get("default")`) a supplied `0` is replaced by the default,
-    a supplied `0` without default is an error, and a default of `0` is "no definition" (D12). -/
-theorem option_decision_refuted :
-    decideOption .truthyGet .truthyGet "o" (some (.int 0)) (some (.int 5)) = .ok (.int 5) ∧
-    decideOption .truthyGet .truthyGet "o" (some (.bool false)) none = .error (.noOption "o") ∧
-    decideOption .truthyGet .truthyGet "o" (some (.str "")) (some (.int 5)) = .ok (.int 5) ∧
-    decideOption .truthyGet .truthyGet "o" none (some (.int 0)) = .error (.noOption "o") := by
-  decide
+/-! The two statements below are about the explicit parameter `.truthyGet`, i.e. about the tests
+    `user_options.get(name)` / `option.get("default")` that `merge_options` used before the repair of D12
+    (commit d8c74a2).  The pinned tests are `.contains` now (`C14Bridge.option_decision_pinned`); these
+    stay as the description of what a regression to truthiness tests would compute. -/
 
-/-- **option_decision_partial** — the current code satisfies the rule whenever the supplied value,
-    respectively the default that is needed, is truthy. -/
-theorem option_decision_partial (name : String) (user dflt : Option OVal)
-    (hu : ∀ u, user = some u → u.truthy = true)
-    (hd : user = none → ∀ d, dflt = some d → d.truthy = true) :
-    decideOption .truthyGet .truthyGet name user dflt =
-      optionSpec name user dflt := by
-  cases user with
-  | none =>
-    cases dflt with
-    | none => rfl
-    | some d => simp [decideOption, Test.holds, optionSpec, hd rfl d rfl]
-  | some u => simp [decideOption, Test.holds, optionSpec, hu u rfl]
-
-example : (OVal.int 7).truthy = true ∧ (OVal.str "x").truthy = true ∧ (OVal.str "0").truthy = true := by decide
-
-/-- what the current tests compute, completely: falsy supplied values and falsy defaults are ignored -/
-theorem option_decision_truthy (name : String) (user dflt : Option OVal) :
+/-- exact characterisation of the truthiness tests: the decision table applied after *dropping* falsy
+    supplied values and falsy defaults -/
+theorem truthyGet_decision_exact (name : String) (user dflt : Option OVal) :
     decideOption .truthyGet .truthyGet name user dflt =
       optionSpec name (user.filter OVal.truthy) (dflt.filter OVal.truthy) := by
   cases user with
@@ -391,6 +371,16 @@ theorem option_decision_truthy (name : String) (user dflt : Option OVal) :
       | none => simp [decideOption, Test.holds, optionSpec, Option.filter, h]
       | some d => cases h' : d.truthy <;> simp [decideOption, Test.holds, optionSpec, Option.filter, h, h']
     · simp [decideOption, Test.holds, optionSpec, Option.filter, h]
+
+/-- hence the truthiness tests do *not* satisfy the decision table: a supplied `0` is replaced by the
+    default, a supplied `False` without default is an error, a default of `0` is "no definition" -/
+theorem truthyGet_decision_violates_spec :
+    decideOption .truthyGet .truthyGet "o" (some (.int 0)) (some (.int 5)) ≠ optionSpec "o" (some (.int 0)) (some (.int 5)) ∧
+    decideOption .truthyGet .truthyGet "o" (some (.bool false)) none ≠ optionSpec "o" (some (.bool false)) none ∧
+    decideOption .truthyGet .truthyGet "o" none (some (.int 0)) ≠ optionSpec "o" none (some (.int 0)) := by
+  decide
+
+example : (OVal.int 0).truthy = false ∧ (OVal.str "").truthy = false ∧ (OVal.str "0").truthy = true := by decide
 
 /-- **merge_options_lookup** — `merge_options` as a whole, for either pair of tests: after a successful
     merge every declared name holds the decision for its *last* declaration, every other name holds the
